@@ -270,6 +270,8 @@ type memoEntry struct {
 }
 
 type interp struct {
+	private  map[*ssa.Alloc]bool
+	cellIn   map[cellKey]map[*ssa.BasicBlock]map[*ssa.Store]bool
 	p        *Program
 	heap     map[*Obj]*AV
 	objs     map[string]*Obj
@@ -537,6 +539,20 @@ func (it *interp) step(fn *ssa.Function, me *memoEntry, in ssa.Instruction, get 
 		if x.Op == token.MUL {
 			if !pointerish(x.Type()) {
 				return false
+			}
+			// Strong update for a private cell: a field of a local variable whose
+			// address never leaves the function is read as what the stores that
+			// reach this load put there, not as everything ever stored in it.
+			if defs, ok := it.reachingDefs(fn, x); ok {
+				out := newAV()
+				for _, d := range defs {
+					v := get(d.st.Val)
+					if d.whole {
+						v = v.field(d.field)
+					}
+					out.join(v)
+				}
+				return set(x, out)
 			}
 			return set(x, it.loadFrom(get(x.X)))
 		}
@@ -960,4 +976,171 @@ func (it *interp) external(me *memoEntry, site ssa.Instruction, cc *ssa.CallComm
 		}
 	}
 	return out
+}
+
+// ---------------------------------------------------------------------------
+// Reaching stores for private cells (strong updates).
+
+type cellDef struct {
+	st    *ssa.Store
+	whole bool // the store assigns the whole variable; the field is selected from the stored value
+	field int
+}
+
+type cellKey struct {
+	al    *ssa.Alloc
+	field int
+}
+
+// privateCell reports whether every use of the local variable al is a direct
+// load or store of the variable or of one of its fields: then nothing but the
+// stores of this function can change it.
+func privateCell(al *ssa.Alloc) bool {
+	if al.Heap {
+		// captured by a closure or address taken: other code may write it
+		for _, r := range *al.Referrers() {
+			switch r.(type) {
+			case *ssa.MakeClosure:
+				return false
+			}
+		}
+	}
+	for _, r := range *al.Referrers() {
+		switch u := r.(type) {
+		case *ssa.Store:
+			if u.Addr != al {
+				return false // the address itself is stored somewhere
+			}
+		case *ssa.UnOp:
+			if u.Op != token.MUL {
+				return false
+			}
+		case *ssa.FieldAddr:
+			for _, rr := range *u.Referrers() {
+				switch uu := rr.(type) {
+				case *ssa.Store:
+					if uu.Addr != u {
+						return false
+					}
+				case *ssa.UnOp:
+					if uu.Op != token.MUL {
+						return false
+					}
+				case *ssa.DebugRef:
+				default:
+					return false
+				}
+			}
+		case *ssa.DebugRef:
+		default:
+			return false
+		}
+	}
+	return true
+}
+
+// reachingDefs: for a load of field f of a private local variable, the stores
+// that may reach it. ok is false when the load is not of that shape or when
+// some path reaches the load without any store (the zero value: handled by the
+// caller as an empty contribution, so ok stays true and the path adds nothing).
+func (it *interp) reachingDefs(fn *ssa.Function, ld *ssa.UnOp) ([]cellDef, bool) {
+	fa, ok := ld.X.(*ssa.FieldAddr)
+	if !ok {
+		return nil, false
+	}
+	al, ok := fa.X.(*ssa.Alloc)
+	if !ok || al.Parent() != fn {
+		return nil, false
+	}
+	if it.private == nil {
+		it.private = map[*ssa.Alloc]bool{}
+		it.cellIn = map[cellKey]map[*ssa.BasicBlock]map[*ssa.Store]bool{}
+	}
+	priv, seen := it.private[al]
+	if !seen {
+		priv = privateCell(al)
+		it.private[al] = priv
+	}
+	if !priv {
+		return nil, false
+	}
+	key := cellKey{al, fa.Field}
+	isDef := func(in ssa.Instruction) (*ssa.Store, bool) {
+		st, ok := in.(*ssa.Store)
+		if !ok {
+			return nil, false
+		}
+		if st.Addr == al {
+			return st, true
+		}
+		if f2, ok := st.Addr.(*ssa.FieldAddr); ok && f2.X == al && f2.Field == fa.Field {
+			return st, true
+		}
+		return nil, false
+	}
+	in, done := it.cellIn[key]
+	if !done {
+		in = map[*ssa.BasicBlock]map[*ssa.Store]bool{}
+		out := map[*ssa.BasicBlock]map[*ssa.Store]bool{}
+		last := map[*ssa.BasicBlock]*ssa.Store{}
+		for _, b := range fn.Blocks {
+			in[b] = map[*ssa.Store]bool{}
+			out[b] = map[*ssa.Store]bool{}
+			for _, ins := range b.Instrs {
+				if st, ok := isDef(ins); ok {
+					last[b] = st
+				}
+			}
+		}
+		for changed := true; changed; {
+			changed = false
+			for _, b := range fn.Blocks {
+				for _, p := range b.Preds {
+					for st := range out[p] {
+						if !in[b][st] {
+							in[b][st] = true
+							changed = true
+						}
+					}
+				}
+				if l := last[b]; l != nil {
+					if !out[b][l] || len(out[b]) != 1 {
+						out[b] = map[*ssa.Store]bool{l: true}
+						changed = true
+					}
+				} else {
+					for st := range in[b] {
+						if !out[b][st] {
+							out[b][st] = true
+							changed = true
+						}
+					}
+				}
+			}
+		}
+		it.cellIn[key] = in
+	}
+	// the last store before the load in its own block, else what reaches the block
+	b := ld.Block()
+	var local *ssa.Store
+	for _, ins := range b.Instrs {
+		if ins == ssa.Instruction(ld) {
+			break
+		}
+		if st, ok := isDef(ins); ok {
+			local = st
+		}
+	}
+	mk := func(st *ssa.Store) cellDef {
+		return cellDef{st: st, whole: st.Addr == al, field: fa.Field}
+	}
+	if local != nil {
+		return []cellDef{mk(local)}, true
+	}
+	var defs []cellDef
+	for st := range in[b] {
+		defs = append(defs, mk(st))
+	}
+	sort.Slice(defs, func(i, j int) bool { return defs[i].st.Pos() < defs[j].st.Pos() })
+	return defs, true
 }
